@@ -84,6 +84,8 @@ func (o c11Op) String() string {
 	switch o.Kind {
 	case "load":
 		return fmt.Sprintf("load(f%d)", o.Root)
+	case "load-buffer":
+		return fmt.Sprintf("loadFromContent(f%d,unsaved)", o.Root)
 	case "clear":
 		return "clear"
 	}
@@ -133,10 +135,13 @@ func c11Counts(tier string) (enum, random, server int64) {
 
 var c11Alphabet = []string{"load", "edit-invalidate", "edit-clear", "clear"}
 
+// random histories also use unsaved buffers (LoadFromContent) and small depth limits
+var c11AlphabetExt = []string{"load", "load", "edit-invalidate", "edit-clear", "clear", "load-buffer"}
+
 func init() {
 	Register(&Prop{
 		ID:   "C11",
-		Rule: "histories of load(root_i) / edit a file (new include row and content) + InvalidateFile / edit without invalidation followed by ClearCache / ClearCache on ONE shared loader over 30 fixed 4-file include graphs (chains >= 3 deep, diamonds, cycles below the root); after every load the result (file set, file order, content projection of every journal, load errors with their directive lines) is compared with a fresh loader on the same disk state. All histories of length <= 4 over the 4-operation alphabet are enumerated per graph (thorough: all 30 graphs x 340; quick: a seeded slice), random histories of length 5-6 beyond; server level: open / save included file / change sequences followed by references and completion probes compared with a fresh server on the same disk state. Non-trivial = history containing a load after an edit or a second load; distinct by history+graph hash.",
+		Rule: "histories of load(root_i) / edit a file (new include row and content) + InvalidateFile / edit without invalidation followed by ClearCache / ClearCache (random histories also: LoadFromContent of an unsaved buffer, and depth limits 1-4 set on both loaders) on ONE shared loader over 30 fixed 4-file include graphs (chains >= 3 deep, diamonds, cycles below the root); after every load the result (file set, file order, content projection of every journal, load errors with their directive lines) is compared with a fresh loader on the same disk state. All histories of length <= 4 over the 4-operation alphabet are enumerated per graph (thorough: all 30 graphs x 340; quick: a seeded slice), random histories of length 5-6 beyond; server level: open / save included file / change sequences followed by references and completion probes compared with a fresh server on the same disk state. Non-trivial = history containing a load after an edit or a second load; distinct by history+graph hash.",
 		Notes: []string{"parse errors of included files are excluded (the server drops them)", "every history ends with a load so that its effect is observed"},
 		Cases: func(tier string) int64 {
 			a, b, s := c11Counts(tier)
@@ -174,7 +179,7 @@ func runC11(c *Ctx, idx int64) {
 	mkOp := func(kind string) c11Op {
 		o := c11Op{Kind: kind}
 		switch kind {
-		case "load":
+		case "load", "load-buffer":
 			o.Root = r.Intn(3)
 			if r.Chance(2, 3) {
 				o.Root = 0
@@ -206,8 +211,12 @@ func runC11(c *Ctx, idx int64) {
 		gi = r.Intn(len(c11Graphs))
 		n := r.Range(5, 6)
 		for i := 0; i < n; i++ {
-			ops = append(ops, mkOp(Pick(r, c11Alphabet)))
+			ops = append(ops, mkOp(Pick(r, c11AlphabetExt)))
 		}
+	}
+	limits := include.DefaultLimits()
+	if idx >= a && r.Chance(1, 2) {
+		limits.MaxIncludeDepth = r.Range(1, 4)
 	}
 	ops = append(ops, c11Op{Kind: "load", Root: 0})
 	dir := filepath.Join(c.Dir, fmt.Sprintf("h%d", idx))
@@ -220,6 +229,7 @@ func runC11(c *Ctx, idx int64) {
 	}
 	// warm the shared loader like a server that has been running for a while
 	shared := include.NewLoader()
+	shared.SetLimits(limits)
 	shared.Load(filepath.Join(dir, g.fileName(0)))
 	var trace []string
 	edited := false
@@ -242,10 +252,29 @@ func runC11(c *Ctx, idx int64) {
 				shared.ClearCache()
 			}
 			edited = true
+		case "load-buffer":
+			// an open document with unsaved edits is resolved from its buffer; nothing else may
+			// ever see that text
+			root := filepath.Join(dir, g.fileName(o.Root))
+			disk, _ := os.ReadFile(root)
+			buf := string(disk) + fmt.Sprintf("\n2019-02-02 unsaved %d\n    m:unsaved  1 USD\n    assets:cash\n", step)
+			res, errs := shared.LoadFromContent(root, buf)
+			fl := include.NewLoader()
+			fl.SetLimits(limits)
+			fres, ferrs := fl.LoadFromContent(root, buf)
+			c.Count("buffer_loads_compared", 1)
+			if got, want := loadFingerprint(dir, res, errs, root), loadFingerprint(dir, fres, ferrs, root); got != want {
+				c.Violate(Violation{Kind: "differs-from-fresh", Sig: "C11:differs-from-fresh(buffer-load)", Pool: "clean",
+					Detail:  fmt.Sprintf("step %d %s on the shared loader differs from a fresh loader", step, o),
+					Witness: map[string]any{"graph": fmt.Sprintf("%#04x", c11Graphs[gi]), "history": trace, "shared_loader": got, "fresh_loader": want}})
+				return
+			}
 		case "load":
 			root := filepath.Join(dir, g.fileName(o.Root))
 			res, errs := shared.Load(root)
-			fres, ferrs := include.NewLoader().Load(root)
+			fl := include.NewLoader()
+			fl.SetLimits(limits)
+			fres, ferrs := fl.Load(root)
 			got := loadFingerprint(dir, res, errs, root)
 			want := loadFingerprint(dir, fres, ferrs, root)
 			c.Count("loads_compared", 1)
